@@ -3428,3 +3428,68 @@ func ruleBulkMoveEndsAtTargets(c *Ctx) {
 	c.Sites++
 	c.check(readsLabels && guarded, R, "patchCode:bulk-move-ends-at-jump-targets", p.pos(fn.Pos()), "the pending group is closed where a label was bound", "patchCode merges a run of MOVEs into one MOVEN group without looking at the label table: a jump target inside the run ends up inside the multi-word group (`local c = a or b; local d = e; local g = a`)")
 }
+
+// ruleNestedCallDepth: F104. Every call made through the Go stack (callR: Call, PCall, pcall, metamethods,
+// iterators) runs a nested interpreter loop; the configured call-stack size bounds the frames, not the Go
+// stack. callR therefore refuses, before it sets a frame up, when the call stack is deeper than a constant.
+func ruleNestedCallDepth(c *Ctx) {
+	const R = "R12-full"
+	p := c.P
+	fn := c.need(R, "lua", "(*LState).callR")
+	if fn == nil {
+		return
+	}
+	g := p.G(fn)
+	p.computeNoReturn()
+	var guard ssa.Instruction
+	allInstrs(fn, func(in ssa.Instruction) {
+		if !p.isNoReturnCall(in) {
+			return
+		}
+		for _, cd := range g.expandAnd(g.CondsAtInstr(in)) {
+			b, ok := cd.V.(*ssa.BinOp)
+			if !ok || !cd.Sense || (b.Op != token.GEQ && b.Op != token.GTR) {
+				continue
+			}
+			cl, ok := stripConv(b.X).(*ssa.Call)
+			if !ok || callOf(cl) == nil || cl.Call.Method == nil || cl.Call.Method.Name() != "Sp" {
+				if !ok {
+					continue
+				}
+				if sc := cl.Call.StaticCallee(); sc == nil || sc.Name() != "Sp" {
+					continue
+				}
+			}
+			if k, isK := constInt(b.Y); isK && k > 0 && k <= 1000000 {
+				guard = in
+			}
+		}
+	})
+	// the guard comes before the nested loop is entered
+	okc := false
+	if guard != nil {
+		okc = true
+		allInstrs(fn, func(in ssa.Instruction) {
+			cl, ok := in.(*ssa.Call)
+			if !ok || cl.Call.StaticCallee() != nil || cl.Call.IsInvoke() {
+				return
+			}
+			// the call through the mainLoop field
+			if !g.Live(in) {
+				return
+			}
+			b, i := after(guard)
+			_ = b
+			_ = i
+			if !g.BlockDom(guard.Block().Preds[0], in.Block()) && guard.Block().Preds[0] != in.Block() {
+				okc = false
+			}
+		})
+	}
+	pos := p.pos(fn.Pos())
+	if guard != nil {
+		pos = p.ipos(guard)
+	}
+	c.Sites++
+	c.check(okc, R, "callR:nested-call-depth-bounded", pos, "callR raises when Sp() exceeds a constant, before the nested loop runs", "callR enters a nested interpreter loop at any call-stack depth: with a very large CallStackSize, recursion through pcall (or a metamethod, or an iterator) overflows the Go stack — a fatal error no recover catches — long before the configured limit is reached")
+}
